@@ -524,6 +524,166 @@ fn client_retry(sc: &Scenario, sink: &Sink) {
     }
 }
 
+// ------------------------------------------------------------------ decode levels named through the C ABI
+static LOG_LINES: Mutex<Vec<String>> = Mutex::new(Vec::new());
+extern "C" fn on_log(_level: c_int, message: *const std::os::raw::c_char, _ctx: *mut c_void) {
+    let s = unsafe { std::ffi::CStr::from_ptr(message) }.to_string_lossy().to_string();
+    LOG_LINES.lock().unwrap().push(s);
+}
+
+fn configure_ffi_logging_once() {
+    static ONCE: std::sync::Once = std::sync::Once::new();
+    ONCE.call_once(|| unsafe {
+        let cfg: ffi::LoggingConfig = ffi::LoggingConfigFields {
+            level: ffi::LogLevel::Info,
+            output_format: ffi::LogOutputFormat::Text,
+            time_format: ffi::TimeFormat::None,
+            print_level: false,
+            print_module_info: false,
+        }
+        .into();
+        let rc = ffi::rodbus_configure_logging(cfg, ffi::Logger { on_message: Some(on_log), on_destroy: None, ctx: std::ptr::null_mut() });
+        assert_eq!(rc, 0);
+    });
+}
+
+/// the protocol-decoding lines of a log, without what differs between two runs by construction (port numbers)
+fn decode_lines() -> Vec<String> {
+    let lines = std::mem::take(&mut *LOG_LINES.lock().unwrap());
+    let mut out = Vec::new();
+    for l in lines {
+        if std::env::var("VERIF_DEBUG_LOG").is_ok() { eprintln!("LOG: {l}"); }
+        if !(l.contains("PDU") || l.contains("MBAP") || l.contains("PHYS")) {
+            continue;
+        }
+        // drop the channel's span prefix (it names the port, which differs between two runs by construction)
+        let s = if let Some(i) = l.find("Transaction{") {
+            l[i..].to_string()
+        } else if let Some(i) = l.find("}}: ") {
+            l[i + 4..].to_string()
+        } else {
+            l.clone()
+        };
+        out.push(s.trim().to_string());
+    }
+    out
+}
+
+fn accept_one(listener: &TcpListener) -> Option<TcpStream> {
+    listener.set_nonblocking(false).ok();
+    let (s, _) = listener.accept().ok()?;
+    s.set_nodelay(true).ok();
+    Some(s)
+}
+
+fn answer_one_read(s: &mut TcpStream) -> Option<()> {
+    let req = read_frame(s, 3000).ok()?;
+    let rsp = mbap(((req[0] as u16) << 8) | req[1] as u16, req[6], &[3, 4, 0x12, 0x34, 0xAB, 0xCD]);
+    s.write_all(&rsp).ok()
+}
+
+struct RustStates {
+    connected: Arc<AtomicBool>,
+}
+impl rodbus::client::Listener<rodbus::client::ClientState> for RustStates {
+    fn update(&mut self, value: rodbus::client::ClientState) -> rodbus::MaybeAsync<()> {
+        if value == rodbus::client::ClientState::Connected {
+            self.connected.store(true, Ordering::SeqCst);
+        }
+        rodbus::MaybeAsync::ready(())
+    }
+}
+
+/// one identical transaction through a C-ABI channel and through a Rust channel at the same-named decode level:
+/// what is logged must be the same
+fn decode_levels(sc: &Scenario, sink: &Sink) {
+    configure_ffi_logging_once();
+    for st in &sc.steps {
+        let (a, f, p) = (st.values[0] as usize, st.values[1] as usize, st.values[2] as usize);
+        let via_set = st.op == "set";
+        // ---- C ABI
+        let cabi = unsafe {
+            let rt = runtime();
+            let listener = TcpListener::bind("127.0.0.1:0").unwrap();
+            let port = listener.local_addr().unwrap().port();
+            let lctx = Box::leak(Box::new(ListenerCtx { sink: Sink::null(), state: Mutex::new(-1) }));
+            let l = ffi::ClientStateListener { on_change: Some(on_state), on_destroy: None, ctx: lctx as *mut ListenerCtx as *mut c_void };
+            let host = CString::new("127.0.0.1").unwrap();
+            let mut ch: *mut rodbus_ffi::ClientChannel = std::ptr::null_mut();
+            let level: ffi::DecodeLevel = ffi::DecodeLevelFields {
+                app: [ffi::AppDecodeLevel::Nothing, ffi::AppDecodeLevel::FunctionCode, ffi::AppDecodeLevel::DataHeaders, ffi::AppDecodeLevel::DataValues][a].clone(),
+                frame: [ffi::FrameDecodeLevel::Nothing, ffi::FrameDecodeLevel::Header, ffi::FrameDecodeLevel::Payload][f].clone(),
+                physical: [ffi::PhysDecodeLevel::Nothing, ffi::PhysDecodeLevel::Length, ffi::PhysDecodeLevel::Data][p].clone(),
+            }
+            .into();
+            let first = if via_set { decode0() } else { level.clone() };
+            let rc = ffi::rodbus_client_channel_create_tcp(rt, host.as_ptr(), port, 4, ffi::RetryStrategy { min_delay: 100, max_delay: 400 }, first, l, &mut ch);
+            assert_eq!(rc, 0);
+            if via_set {
+                ffi::rodbus_client_channel_set_decode_level(ch, level);
+            }
+            ffi::rodbus_client_channel_enable(ch);
+            let mut peer = accept_one(&listener);
+            wait_for(|| *lctx.state.lock().unwrap() == 2, 3000);
+            let _ = decode_lines();
+            let ctx = Box::leak(Box::new(CbCtx { sink: Sink::null(), r: 0, completions: AtomicU64::new(0), destroys: AtomicU64::new(0), done: AtomicBool::new(false), t0: Instant::now() }));
+            let cb = ffi::RegisterReadCallback { on_complete: Some(regs_complete), on_failure: Some(on_failure), on_destroy: Some(on_destroy), ctx: ctx as *mut CbCtx as *mut c_void };
+            ffi::rodbus_client_channel_read_holding_registers(ch, ffi::RequestParam { unit_id: 9, timeout: 2000 }, ffi::AddressRange { start: 7, count: 2 }, cb);
+            if let Some(s) = peer.as_mut() {
+                answer_one_read(s);
+            }
+            wait_for(|| ctx.done.load(Ordering::SeqCst), 3000);
+            std::thread::sleep(Duration::from_millis(30));
+            let lines = decode_lines();
+            drop(peer);
+            ffi::rodbus_client_channel_destroy(ch);
+            ffi::rodbus_runtime_destroy(rt);
+            lines
+        };
+        // ---- Rust API, same-named level
+        let rust = {
+            use rodbus::client::*;
+            use rodbus::*;
+            let rt = tokio::runtime::Builder::new_multi_thread().worker_threads(1).enable_all().build().unwrap();
+            let listener = TcpListener::bind("127.0.0.1:0").unwrap();
+            let port = listener.local_addr().unwrap().port();
+            let level = decode_level(&[a as u8, f as u8, p as u8]);
+            let connected = Arc::new(AtomicBool::new(false));
+            let channel = {
+                let _g = rt.enter();
+                spawn_tcp_client_task(HostAddr::ip("127.0.0.1".parse().unwrap(), port), 4,
+                    doubling_retry_strategy(Duration::from_millis(100), Duration::from_millis(400)),
+                    if via_set { DecodeLevel::nothing() } else { level }, Some(Box::new(RustStates { connected: connected.clone() })))
+            };
+            let mut ch2 = channel.clone();
+            rt.block_on(async {
+                if via_set {
+                    let _ = ch2.set_decode_level(level).await;
+                }
+                let _ = ch2.enable().await;
+            });
+            let mut peer = accept_one(&listener);
+            wait_for(|| connected.load(Ordering::SeqCst), 3000);
+            let _ = decode_lines();
+            let mut ch3 = channel.clone();
+            let h = rt.spawn(async move {
+                ch3.read_holding_registers(RequestParam::new(UnitId::new(9), Duration::from_millis(2000)), AddressRange::try_from(7, 2).unwrap()).await
+            });
+            if let Some(s) = peer.as_mut() {
+                answer_one_read(s);
+            }
+            let _ = rt.block_on(h);
+            std::thread::sleep(Duration::from_millis(30));
+            let lines = decode_lines();
+            drop(peer);
+            drop(channel);
+            rt.shutdown_timeout(Duration::from_millis(500));
+            lines
+        };
+        sink.emit(json!({"e":"ffi_decode","level":[a, f, p],"via_set":via_set,"cabi":cabi,"rust":rust}));
+    }
+}
+
 // ------------------------------------------------------------------ database
 struct DbCtx {
     sink: Sink,
@@ -740,6 +900,7 @@ fn main() {
             "client_ops" => client_ops(&sc, &sink),
             "client_queue" => client_queue(&sc, &sink),
             "client_retry" => client_retry(&sc, &sink),
+            "decode_levels" => decode_levels(&sc, &sink),
             "db_seq" => db_seq(&sc, &sink),
             _ => db_stress(&sc, &sink),
         }));
